@@ -27,7 +27,7 @@ def step (d : D) (op impl : String) : D × DrvOut :=
     match (cols impl).lookup "run" with
     | some r => ({ running := compIds (csv r) }, { model := impl })
     | none => (d, { model := "run=<components>" })
-  | "reload" :: _ | "reloadf" :: _ =>
+  | "reload" :: _ | "reloadf" :: _ | "api" :: _ | "burst" :: _ =>
     let c := cols impl
     match c.lookup "chg", c.lookup "ptr", c.lookup "fresh", c.lookup "life" with
     | some chgS, some ptrS, some freshS, some lifeS =>
